@@ -1,4 +1,5 @@
 """C04 - a trashed entry is never overwritten: names stay unique, also under concurrency."""
+import json
 import random
 
 from harness import opdrivers, opspec, stages, tt
@@ -53,6 +54,27 @@ def run(chk):
                 chk.nontrivial.add(k)
                 items.append({'scen': scen, 'preempts': o['preempts'], 'k': ob.get('k'), 'final': bool(ob.get('final')),
                               'obs': ob, 'exit': ob.get('exit'), 'stderr': ob.get('stderr')})
+        # design conformance: the recorded operation traces must be behaviours of PutOps.tla (PutOpsTrace)
+        kinds, kw = opdrivers.PUT_SCENARIOS[scen]
+        uniq = {}
+        for o in out:
+            uniq.setdefault(json.dumps(o['events']), o)
+        tr = [json.loads(k) for k in uniq]
+        ab = lambda s_: 'n' if s_ == b'n' else 'n' + s_.decode()[2:]
+        vr, acc = opspec.validate_put_traces(
+            tr, ['p%d' % (i + 1) for i in range(len(kinds))],
+            [('t1', ab(s_)) for t_, s_ in kw.get('pre_info', [])], [('t1', ab(s_)) for t_, s_, k_ in kw.get('pre_pay', [])],
+            bool(kw.get('tdir_exists') or kw.get('pre_info') or kw.get('pre_pay')))   # pre-existing entries imply the directories
+        chk.add_tlc('PutOpsTrace:' + scen, vr, constants='traces=%d' % len(tr))
+        if vr.ok:
+            rej = [list(uniq.values())[i] for i in range(len(tr)) if (i + 1) not in acc]
+            chk.stage_stats.setdefault('design-conformance', {})[scen] = {'distinct_traces': len(tr), 'accepted': len(acc)}
+            for o in rej[:3]:
+                # drift is not a violation by itself: the invariants on the observed states decide the property
+                print('DRIFT property=C04 scenario=%s schedule=%s: the recorded trace is not a behaviour of PutOps.tla '
+                      '(operations: %s)' % (scen, o['preempts'], [e['k'] for e in o['events'] if e['k'].startswith('other')] or 'order/result'))
+            if rej:
+                chk.notes.append('DRIFT: %d of %d distinct traces of %s rejected by PutOpsTrace' % (len(rej), len(tr), scen))
         if len(chk.samples) < 3:
             chk.sample({'scenario': scen, 'schedule (pre-emptions: step -> process)': out[-1]['preempts'],
                         'operations': out[-1]['trace'][:60], 'verdict': 'all observed states satisfy the invariants'})
